@@ -49,7 +49,7 @@ pub fn same_outcome(got: &Result<String, liquid::Error>, want: &J) -> bool {
             want["ok"] == true
                 && (want["anyout"] == true || crate::val::dec_text(&want["out"]).as_deref() == Some(s.as_str()))
         }
-        Err(_) => want["ok"] == false,
+        Err(_) => want["ok"] == false || want["anyerr"] == true,
     }
 }
 
@@ -88,6 +88,9 @@ pub fn run(rec: &J) -> Outcome {
         let template = match parser.parse(&src) {
             Ok(t) => t,
             Err(e) => {
+                if want["anyerr"] == true && !e.to_string().trim().is_empty() {
+                    continue; // totality only: a rejection with a message is fine
+                }
                 return fail("generated template was rejected by the parser",
                             json!({"src": src, "err": e.to_string()}))
             }
